@@ -20,8 +20,8 @@ class Unencodable(Exception):
     pass
 
 
-PI_LO = z3.Q(314159265358979, 10**14)
-PI_HI = z3.Q(314159265358980, 10**14)
+PI_LO = z3.Q(3141592653589793238462643383279, 10**30)        # 30 digits: an interval narrower than one double ulp, so that
+PI_HI = z3.Q(3141592653589793238462643383280, 10**30)        # "4*pi" and the double 12.566370614359172 stay 1e-16 apart, not 1e-14
 
 
 def qv(x) -> z3.ArithRef:
@@ -184,7 +184,11 @@ class Enc:
                 return self.tr(sp.log(e.args[0]) / sp.log(e.args[1]))
             a = self.tr(e.args[0])
             self.domain.append(a > 0)
+            fresh_app = not any(z3.eq(a, a2[0]) for a2, _ in self.apps.get("log", []))
             v = self.app("log", (a,))
+            if fresh_app:
+                # 1 - 1/x <= log x <= x - 1 (x > 0): keeps the uninterpreted value in the right region
+                self.side.append(z3.Implies(a > 0, z3.And(v <= a - 1, v * a >= a - 1)))
             if e.args[0].is_Rational and e.args[0] > 0 and ("logc", e.args[0]) not in self.cache:
                 # sound numeric enclosure of the logarithm of a rational constant (30-digit evaluation, 1e-25 relative slack)
                 self.cache[("logc", e.args[0])] = True
@@ -308,6 +312,15 @@ class Enc:
         for a2, v2 in lst:
             if len(a2) == len(args):
                 self.side.append(z3.Implies(z3.And([x == y for x, y in zip(a2, args)]), v == v2))
+        if head in ("log", "exp") and len(lst) < 6:
+            # continuity beyond congruence (two logarithms whose arguments differ by float rounding must nearly agree):
+            # log t <= t - 1 at t = x/y and t = y/x;  exp t >= 1 + t at t = a - b and t = b - a.  Both are theorems.
+            x = args[0]
+            for (y,), w in lst:
+                if head == "log":
+                    self.side += [z3.Implies(z3.And(x > 0, y > 0), z3.And((v - w) * y <= x - y, (w - v) * x <= y - x))]
+                else:
+                    self.side += [v >= w * (1 + x - y), w >= v * (1 + y - x)]
         lst.append((args, v))
         if positive:
             self.side.append(v > 0)
